@@ -42,10 +42,9 @@
     Hence **`C04_exact_set : C04_full_statement`** is a theorem without hypotheses, and so are
     `C04_remove_total` and `C04_add_outcome`.
 
-  NOT PROVED: that the recursion budget the model gives `add_alt`/`resize`/`merge`
-  (`QF.budgetOf`) always suffices — `C04_exact_set` is stated for histories in which no call raised
-  or reported `diverged`, for an arbitrary budget; termination of `remove`, of look-up and iteration,
-  and of `add` without auto-resize IS proved.  The bounded checks of `PyProb/Lemmas/QFBounded*.lean`
+  TERMINATION of the budgeted calls (`add_alt` with auto-resize, `resize`, `merge`) is proved in the
+  second module `Properties/C04_termination.lean` (it has to import this file): with the budget the
+  driver uses they never report `diverged`.  The bounded checks of `PyProb/Lemmas/QFBounded*.lean`
   (all canonical tables of the 8-slot filter over two universes) are kept as tests.
 -/
 import PyProb.Lemmas.QFWriteAdd
